@@ -20,9 +20,17 @@ state `(default?, routing table in mount order)`.  `T` = the constantly-true `is
 * `mount_keys_complete` / `mount_keys_exact` (fix D7f, the former finding "parents of mount points are contained
   but not listed" is repaired): `keys()` appends the parents of mount points that no store listed, so every
   non-root key the composite contains is listed — and nothing else, each once (`mount_keys_once` for tree-shaped parts).
+* nesting (`nestedOps`, LiquerModel/StoreMountNested.lean): mount-point stores mounted in a mount-point store, asked by their REAL
+  `is_supported` (`Mt.supports`, repair a6dff51). `supports_dirs`: root, mount points and their parents are supported with or
+  without a default store; `nested_dir_lifts` / `nested_at_mount_point` / `nested_depth3`: the outer composite has the inner
+  mount points and their parents as directories, contains them and lists them, through any number of levels;
+  `nested_old_loses_mount_point`: the code before the repair lost them.  `nested_exclusive_partial`: a key below an outer mount
+  is served by the composite mounted there IF that composite supports it — the unrestricted statement is false (witness `fRoot`).
 -/
 import LiquerProofs.Lemmas.StoreMount
 import LiquerProofs.Lemmas.StoreSpec
+import LiquerProofs.Lemmas.StoreMountNested
+import LiquerModel.StoreMem
 
 namespace Liquer.C14
 open Liquer Liquer.SV Liquer.MtL
@@ -441,7 +449,233 @@ theorem to_root_key_nested_reaches (P : StoreOps σ) (ps : List Key) (st : σ) (
 example : Mt.toRootKeyChain [["gui".toList], ["web".toList]] [["index.html".toList]].head! =
     [["web".toList], ["gui".toList], ["index.html".toList]].flatten := by decide
 
+/-! ### nested mount-point stores with the real `is_supported` (repair a6dff51 of `/repo`)
+
+`nestedOps P supp = mountOps (mountOps P supp) (Mt.supports P supp)`: the parts of the outer composite are mount-point
+stores themselves and are asked by their real `is_supported` (`Mt.supports`), not by the idealised `T`. -/
+
+section nested
+open Liquer.MtN
+variable (supp : σ → Key → Bool)
+
+/-- **the directories of a mount-point store are supported**: the root, every mount point and every parent of a mount
+point, with or without a default store (before a6dff51 `is_supported` RAISED there without a default store) -/
+theorem supports_dirs (s : MtState σ) (k : Key) (h : Above s.2 k) : Mt.supports P supp s k = true :=
+  supports_above P supp s k h
+
+/-- … and more generally whatever the composite calls a directory -/
+theorem supports_isDir (s : MtState σ) (k : Key) (h : (mountOps P supp).isDir s k = .ok true) :
+    Mt.supports P supp s k = true :=
+  supports_of_isDir P supp s k h
+
+/-- **one level of nesting lifts directories**: what the inner composite mounted at `p` calls a directory at `q` is a
+directory (and contained) at `p ++ q` of the outer composite, provided `p` is the innermost OUTER mount on the path.
+Applies again at every further level (`P := mountOps P supp`, `supp := Mt.supports P supp`). -/
+theorem nested_dir_lifts (o : MtState (MtState σ)) (hwf : tableWF (o.2.map (·.1)) = true)
+    (i : Nat) (p : Key) (m : MtState σ) (hi : o.2[i]? = some (p, m)) (q : Key) (ho : Owns o.2 i (p ++ q))
+    (hd : (mountOps P supp).isDir m q = .ok true) :
+    (nestedOps P supp).isDir o (p ++ q) = .ok true ∧ (nestedOps P supp).contains o (p ++ q) = .ok true :=
+  ⟨nested_isDir_lift hwf hi ho hd, nested_contains_lift hwf hi ho hd⟩
+
+/-- **at the mount points of a mounted mount-point store**: `q` the root, a mount point or a parent of a mount point of the
+composite `m` mounted at `p` — the outer composite has the directory `p ++ q`, contains it, lists under it the next
+component of every mount point of `m` below `q`, and its listing is the inner listing united with the outer mount points -/
+theorem nested_at_mount_point (o : MtState (MtState σ)) (hwf : tableWF (o.2.map (·.1)) = true)
+    (i : Nat) (p : Key) (m : MtState σ) (hi : o.2[i]? = some (p, m)) (q : Key) (ho : Owns o.2 i (p ++ q))
+    (hq : Above m.2 q) :
+    (nestedOps P supp).isDir o (p ++ q) = .ok true ∧
+    (nestedOps P supp).contains o (p ++ q) = .ok true ∧
+    (∀ c rest st, (q ++ [c] ++ rest, st) ∈ m.2 →
+      ∀ r, (nestedOps P supp).listdir o (p ++ q) = .ok r → ∃ l, r = some l ∧ c ∈ l) ∧
+    (∀ ol, (mountOps P supp).listdir m q = .ok ol →
+      ∃ l, (nestedOps P supp).listdir o (p ++ q) = .ok (some l) ∧ l.Nodup ∧
+        ∀ nm, nm ∈ l ↔ nm ∈ ol.getD [] ∨ ∃ q' m', (q', m') ∈ o.2 ∧ (p ++ q ++ [nm]) <+: q') := by
+  have hd := isDir_above P supp m q hq
+  have hs : q = [] ∨ Mt.supports P supp m q = true := Or.inr (supports_above P supp m q hq)
+  refine ⟨nested_isDir_lift hwf hi ho hd, nested_contains_lift hwf hi ho hd, ?_, ?_⟩
+  · intro c rest st hm r hr
+    obtain ⟨ol, l, hl, rfl, hsub⟩ := nested_listdir_sub hwf hi ho hs r hr
+    obtain ⟨l0, rfl, hc⟩ := listdir_mount_child P supp m q c rest st hm ol hl
+    exact ⟨l, rfl, hsub c hc⟩
+  · intro ol hl
+    exact nested_listdir_union hwf hi ho hs ol hl
+
+/-- the three-level composite: parts of the root are two-level composites -/
+abbrev nestedOps3 : StoreOps (MtState (MtState (MtState σ))) :=
+  nestedOps (mountOps P supp) (Mt.supports P supp)
+
+/-- **the shape of the defect, three levels, every leaf store / part model / `is_supported`**:
+root —`w`→ `M1` —`x`→ `M2` (NO default store) —`g`→ leaf.  `w ++ x` (where `M2` is mounted) and `w ++ x ++ g` (where the leaf is
+mounted) are directories of the root and contained, `w ++ x` lists the first component of `g` -/
+theorem nested_depth3 (w x g : Key) (hw : w ≠ []) (hx : x ≠ [])
+    (d0 : Option (MtState (MtState σ))) (d1 : Option (MtState σ)) (leaf : σ) :
+    let M2 : MtState σ := (none, [(g, leaf)])
+    let M1 : MtState (MtState σ) := (d1, [(x, M2)])
+    let root : MtState (MtState (MtState σ)) := (d0, [(w, M1)])
+    (nestedOps3 P supp).isDir root (w ++ x) = .ok true ∧
+    (nestedOps3 P supp).contains root (w ++ x) = .ok true ∧
+    (nestedOps3 P supp).isDir root (w ++ (x ++ g)) = .ok true ∧
+    (nestedOps3 P supp).contains root (w ++ (x ++ g)) = .ok true ∧
+    (∀ c rest, g = c :: rest → ∀ r, (nestedOps3 P supp).listdir root (w ++ x) = .ok r → ∃ l, r = some l ∧ c ∈ l) := by
+  intro M2 M1 root
+  have wf1 : ∀ (τ : Type) (k : Key) (e : τ), k ≠ [] → tableWF (([(k, e)] : List (Key × τ)).map (·.1)) = true := by
+    intro τ k e hk
+    simp [tableWF, hk]
+  have own1 : ∀ (τ : Type) (k t : Key) (e : τ), Owns ([(k, e)] : List (Key × τ)) 0 (k ++ t) := by
+    intro τ k t e
+    refine ⟨k, e, rfl, ⟨t, rfl⟩, ?_⟩
+    intro j q st' hj _
+    cases j with
+    | zero => simp at hj; rw [hj.1]; exact Nat.le_refl _
+    | succ j => simp at hj
+  have hrootwf : tableWF (root.2.map (·.1)) = true := wf1 _ w M1 hw
+  have hM1wf : tableWF (M1.2.map (·.1)) = true := wf1 _ x M2 hx
+  have aboveX : Above M1.2 x := Or.inr ⟨x, M2, by simp [M1], List.prefix_refl _⟩
+  have aboveG : Above M2.2 g := Or.inr ⟨g, leaf, by simp [M2], List.prefix_refl _⟩
+  have aboveNil : Above M2.2 [] := Or.inl rfl
+  -- level 2: `M1` at `x ++ g`
+  have h1 := nested_dir_lifts P supp M1 hM1wf 0 x M2 rfl g (own1 _ x g M2) (isDir_above P supp M2 g aboveG)
+  -- level 3: the root at `w ++ x` and at `w ++ (x ++ g)`
+  have h2 := nested_at_mount_point (mountOps P supp) (Mt.supports P supp) root hrootwf 0 w M1 rfl x (own1 _ w x M1) aboveX
+  have h3 := nested_dir_lifts (mountOps P supp) (Mt.supports P supp) root hrootwf 0 w M1 rfl (x ++ g) (own1 _ w (x ++ g) M1) h1.1
+  refine ⟨h2.1, h2.2.1, h3.1, h3.2, ?_⟩
+  intro c rest hg r hr
+  have hsX : x = [] ∨ Mt.supports (mountOps P supp) (Mt.supports P supp) M1 x = true :=
+    Or.inr (supports_above _ _ M1 x aboveX)
+  obtain ⟨ol, l, hl, rfl, hsub⟩ :=
+    nested_listdir_sub (P := mountOps P supp) (supp := Mt.supports P supp) hrootwf (i := 0) rfl (own1 _ w x M1) hsX r hr
+  -- `M1` at `x = x ++ []` lists what `M2` lists at its root
+  have hl' : (nestedOps P supp).listdir M1 (x ++ []) = .ok ol := by
+    rw [List.append_nil]
+    exact hl
+  obtain ⟨ol2, l2, hl2, rfl, hsub2⟩ :=
+    nested_listdir_sub (P := P) (supp := supp) hM1wf (i := 0) rfl (own1 _ x [] M2) (Or.inl rfl) ol hl'
+  obtain ⟨l3, rfl, hc⟩ := listdir_mount_child P supp M2 [] c rest leaf (by simp [M2, hg]) ol2 hl2
+  exact ⟨l, rfl, hsub c (hsub2 c hc)⟩
+
+/-! #### witnesses on `MemoryStore` leaves: root —`web`→ `nM1` —`x/y/z`→ `nM2` (no default) —`gui`→ leaf holding `f` -/
+
+def kweb : Key := [['w', 'e', 'b']]
+def kxyz : Key := [['x'], ['y'], ['z']]
+def kgui : Key := [['g', 'u', 'i']]
+def kf : Key := [['f']]
+def nLeaf : MemState := Mem.store memInit kf [7] (um 'l')
+def nDflt : MemState := Mem.store memInit [['z']] [5] (um 't')
+def nM2 : MtState MemState := (none, [(kgui, nLeaf)])
+def nM1 : MtState (MtState MemState) := (none, [(kxyz, nM2)])
+def nRoot : MtState (MtState (MtState MemState)) := (some (Mt.leaf (Mt.leaf nDflt)), [(kweb, nM1)])
+abbrev R3 := nestedOps3 memOps (T (σ := MemState))
+
+example : R3.isDir nRoot kweb = .ok true := by decide
+example : R3.isDir nRoot (kweb ++ [['x']]) = .ok true := by decide
+example : R3.isDir nRoot (kweb ++ kxyz) = .ok true := by decide
+example : R3.isDir nRoot (kweb ++ kxyz ++ kgui) = .ok true := by decide
+example : R3.contains nRoot kweb = .ok true := by decide
+example : R3.contains nRoot (kweb ++ [['x']]) = .ok true := by decide
+example : R3.contains nRoot (kweb ++ kxyz) = .ok true := by decide
+example : R3.listdir nRoot kweb = .ok (some [['x']]) := by decide
+example : R3.listdir nRoot (kweb ++ [['x']]) = .ok (some [['y']]) := by decide
+example : R3.listdir nRoot (kweb ++ kxyz) = .ok (some [['g', 'u', 'i']]) := by decide
+example : R3.listdir nRoot (kweb ++ kxyz ++ kgui) = .ok (some [['f']]) := by decide
+example : R3.listdir nRoot [] = .ok (some [['w', 'e', 'b'], ['z']]) := by decide
+-- a leaf key read through all three levels
+example : R3.getBytes nRoot (kweb ++ kxyz ++ kgui ++ kf) = .ok [7] := by decide
+example : R3.contains nRoot (kweb ++ kxyz ++ kgui ++ kf) = .ok true := by decide
+example : R3.isDir nRoot (kweb ++ kxyz ++ kgui ++ kf) = .ok false := by decide
+example : R3.getBytes nRoot [['z']] = .ok [5] := by decide
+
+/-- **negative witness**: with the `is_supported` of before a6dff51 (which lets `KeyRouteNotFound` escape) the root loses
+the inner mount point; the repaired one keeps it -/
+theorem nested_old_loses_mount_point :
+    oldNestedIsDir3 memOps T nRoot (kweb ++ kxyz) = .ok false ∧ R3.isDir nRoot (kweb ++ kxyz) = .ok true := by
+  decide
+
+-- where the old `is_supported` raised: `nM2` has no default store, `''` has no route
+example : Mt.supportsOld (Mt.liftSupp (T (σ := MemState))) nM2 [] = none := by decide
+example : Mt.supportsOld (Mt.supportsOld (Mt.liftSupp (T (σ := MemState)))) nM1 kxyz = none := by decide
+example : Mt.supports memOps T nM2 [] = true := by decide
+example : Mt.supports (mountOps memOps T) (Mt.supports memOps T) nM1 kxyz = true := by decide
+-- the old code did find what lies strictly below the inner mount point (that is why the defect went unnoticed) …
+example : oldNestedIsDir3 memOps T nRoot (kweb ++ kxyz ++ kgui) = .ok true := by decide
+-- … and already two levels lose the parent of an inner mount point: root —`web`→ (no default) —`x/y/z`→ leaf
+def nRoot2 : MtState (MtState MemState) := (none, [(kweb, (none, [(kxyz, nLeaf)]))])
+example : oldNestedIsDir memOps T nRoot2 (kweb ++ [['x']]) = .ok false ∧
+    (nestedOps memOps T).isDir nRoot2 (kweb ++ [['x']]) = .ok true := by decide
+
+/-! #### what the real `is_supported` does NOT give: exclusivity below a mount point that holds a composite
+
+A mounted mount-point store WITHOUT a default store does not support a key it has no route for, so the outer `route_to`
+walks on — to a shallower mount or to the OUTER default store.  A key below the mount prefix is then served by the outer
+default store (reads and writes), while `keys()` and `listdir` of the outer composite — which hide the default store's
+entries below a mount prefix — do not show it.  (Before a6dff51 the escaping `KeyRouteNotFound` made such reads and
+writes raise; `/repo` now behaves as this model does.)  The `T`-based `mount_union_part` and `mount_keys_complete` have
+no nested analogue; `nested_exclusive_partial` is what holds. -/
+
+/-- the full nested statement: a key whose innermost outer mount is entry `i` is read from the composite mounted there -/
+def nested_exclusive_statement : Prop :=
+  ∀ (o : MtState (MtState MemState)) (i : Nat) (p : Key) (m : MtState MemState) (q : Key),
+    tableWF (o.2.map (·.1)) = true → o.2[i]? = some (p, m) → Owns o.2 i (p ++ q) →
+    (nestedOps memOps T).getBytes o (p ++ q) = (mountOps memOps T).getBytes m q
+
+/-- … and `keys()` of the nested composite lists every non-root key it contains -/
+def nested_keys_complete_statement : Prop :=
+  ∀ (o : MtState (MtState MemState)) (x : Key) (ks : List Key), tableWF (o.2.map (·.1)) = true →
+    (∀ e, e ∈ o.2 → tableWF (e.2.2.map (·.1)) = true) → x ≠ [] →
+    (nestedOps memOps T).contains o x = .ok true → (nestedOps memOps T).keys o = .ok ks → x ∈ ks
+
+/-- **exclusive as far as the mounted composite supports the key** (`q = []`: the mount point itself) -/
+theorem nested_exclusive_partial (o : MtState (MtState σ)) (hwf : tableWF (o.2.map (·.1)) = true)
+    (i : Nat) (p : Key) (m : MtState σ) (hi : o.2[i]? = some (p, m)) (q : Key) (ho : Owns o.2 i (p ++ q))
+    (hs : q = [] ∨ Mt.supports P supp m q = true) :
+    (nestedOps P supp).getBytes o (p ++ q) = (mountOps P supp).getBytes m q :=
+  nested_getBytes hwf hi ho hs
+
+/-- default store holding `web/foo`; at `web` a composite without default store, a leaf mounted at `x` -/
+def fD : MemState := Mem.store memInit (kweb ++ [['f', 'o', 'o']]) [9] (um 'd')
+def fIn : MtState MemState := (none, [([['x']], nLeaf)])
+def fRoot : MtState (MtState MemState) := (some (Mt.leaf fD), [(kweb, fIn)])
+
+example : Mt.supports memOps T fIn [['f', 'o', 'o']] = false := by decide
+-- served by the outer default store although `web` is on its path; contained but neither in `keys()` nor listed
+example : (nestedOps memOps T).getBytes fRoot (kweb ++ [['f', 'o', 'o']]) = .ok [9] := by decide
+example : (nestedOps memOps T).contains fRoot (kweb ++ [['f', 'o', 'o']]) = .ok true := by decide
+example : (nestedOps memOps T).keys fRoot = .ok [kweb, kweb ++ [['x']], kweb ++ [['x'], ['f']]] := by decide
+example : (nestedOps memOps T).listdir fRoot kweb = .ok (some [['x']]) := by decide
+
+example : ¬ nested_exclusive_statement := by
+  intro h
+  have := h fRoot 0 kweb fIn [['f', 'o', 'o']] (by decide) rfl
+    ((route_innermost fRoot.2 (by decide) _ 0).mp (by decide))
+  revert this
+  decide
+
+example : ¬ nested_keys_complete_statement := by
+  intro h
+  have := h fRoot (kweb ++ [['f', 'o', 'o']]) [kweb, kweb ++ [['x']], kweb ++ [['x'], ['f']]]
+    (by decide) (by decide) (by decide) (by decide) (by decide)
+  revert this
+  decide
+
+-- the hypotheses of the nested theorems are satisfiable
+example : (nestedOps memOps T).isDir nRoot2 (kweb ++ [['x']]) = .ok true :=
+  (nested_at_mount_point memOps T nRoot2 (by decide) 0 kweb _ rfl [['x']]
+    ((route_innermost nRoot2.2 (by decide) _ 0).mp (by decide))
+    (Or.inr ⟨kxyz, nLeaf, by simp, by decide⟩)).1
+example : ∃ l, some [['y']] = some l ∧ ['y'] ∈ l :=
+  (nested_at_mount_point memOps T nRoot2 (by decide) 0 kweb _ rfl [['x']]
+    ((route_innermost nRoot2.2 (by decide) _ 0).mp (by decide))
+    (Or.inr ⟨kxyz, nLeaf, by simp, by decide⟩)).2.2.1 ['y'] [['z']] nLeaf (by simp [kxyz]) (some [['y']]) (by decide)
+example : R3.isDir nRoot (kweb ++ kxyz) = .ok true :=
+  (nested_depth3 memOps T kweb kxyz kgui (by decide) (by decide) _ none nLeaf).1
+example : (nestedOps memOps T).getBytes nM1 (kxyz ++ (kgui ++ kf)) = (mountOps memOps T).getBytes nM2 (kgui ++ kf) :=
+  nested_exclusive_partial memOps T nM1 (by decide) 0 kxyz nM2 rfl (kgui ++ kf)
+    ((route_innermost nM1.2 (by decide) _ 0).mp (by decide)) (Or.inr (by decide))
+
+end nested
+
 end Liquer.C14
 
 -- OBLIGATIONS: Liquer.C14.route_exclusive Liquer.C14.route_exclusive_default Liquer.C14.hit_iff_prefix Liquer.C14.route_innermost Liquer.C14.prefix_strips Liquer.C14.prefix_strips_reads Liquer.C14.mount_union_above Liquer.C14.mount_union_part Liquer.C14.mount_union_default Liquer.C14.mount_union_meta_key Liquer.C14.mount_union_listdir_part Liquer.C14.mount_union_listdir_default Liquer.C14.mount_union_listdir_noroute Liquer.C14.mount_union_keys Liquer.C14.mount_write_exclusive Liquer.C14.mount_write_frame Liquer.C14.mount_write_default_only Liquer.C14.mount_removedir_refuses Liquer.C14.to_root_key_reaches_partial Liquer.C14.to_root_key_default Liquer.C14.mount_keys_complete_partial Liquer.C14.mount_keys_complete_gen Liquer.C14.mount_keys_complete Liquer.C14.mount_keys_exact Liquer.C14.mount_keys_once Liquer.C14.to_root_key_chain Liquer.C14.to_root_key_nested_reaches
+-- OBLIGATIONS: Liquer.C14.supports_dirs Liquer.C14.supports_isDir Liquer.C14.nested_dir_lifts Liquer.C14.nested_at_mount_point Liquer.C14.nested_depth3 Liquer.C14.nested_old_loses_mount_point Liquer.C14.nested_exclusive_partial
 -- STATEMENT-ONLY: Liquer.C14.to_root_key_reaches_statement
+-- STATEMENT-ONLY: Liquer.C14.nested_exclusive_statement Liquer.C14.nested_keys_complete_statement
